@@ -653,13 +653,14 @@ def coherence_partial(time_series, r, csd_method=None):
 
     for i in range(time_series.shape[0]):
         for j in range(i, time_series.shape[0]):
-            f, fxx, frr, frx = get_spectra_bi(time_series[i], r, csd_method)
-            f, fyy, frr, fry = get_spectra_bi(time_series[j], r, csd_method)
+            # get_spectra_bi(a, r) returns the cross-spectrum f_ar:
+            f, fxx, frr, fxr = get_spectra_bi(time_series[i], r, csd_method)
+            f, fyy, frr, fyr = get_spectra_bi(time_series[j], r, csd_method)
             c[i, j] = coherence_partial_spec(fxy[i][j],
                                              fxy[i][i],
                                              fxy[j][j],
-                                             frx,
-                                             fry,
+                                             fxr,
+                                             fyr.conjugate(),  # f_ry
                                              frr)
 
     idx = tril_indices(time_series.shape[0], -1)
